@@ -23,7 +23,7 @@ pub fn run_cli(dir: &Path, args: &[&str]) -> Ran {
         match child.try_wait() {
             Ok(Some(st)) => { use std::os::unix::process::ExitStatusExt; let mut out = String::new(); if let Some(mut o) = child.stdout.take() { use std::io::Read; let _ = o.read_to_string(&mut out); }
                               return Ran { code: st.code(), signal: st.signal().is_some(), timed_out: false, stdout: out } }
-            Ok(None) => { if t0.elapsed() > Duration::from_secs(30) { let _ = child.kill(); let _ = child.wait(); return Ran { code: None, signal: false, timed_out: true, stdout: String::new() } } std::thread::sleep(Duration::from_millis(2)); }
+            Ok(None) => { if t0.elapsed() > Duration::from_secs(if api::is_shrinking() { 8 } else { 30 }) { let _ = child.kill(); let _ = child.wait(); return Ran { code: None, signal: false, timed_out: true, stdout: String::new() } } std::thread::sleep(Duration::from_millis(2)); }
             Err(_) => return Ran { code: None, signal: false, timed_out: true, stdout: String::new() },
         }
     }
